@@ -12,7 +12,8 @@ From CC Require Import Deque.DequeModel Deque.DequeProofs Deque.DequeProofs2 Deq
 From CC Require Import PQueue.PQueueModel PQueue.PQueueProofs PQueue.PQueueProofs2.
 From CC Require Import Hash.HashModel Hash.HashProofsA Hash.HashProofsB Hash.HashProofsC Hash.HashProofsD Hash.HashProofsE.
 From CC Require Import Tst.TstModel Tst.TstProofs1 Tst.TstProofs2 Tst.TstProofs3 Tst.TstProofs4.
-From CC Require Import Rbuf.RbufModel Rbuf.RbufProofs.
+From CC Require Import Rbuf.RbufModel Rbuf.RbufProofs List_.ListModel SList.SListModel.
+From CC Require Import Array.ArrayMore Array.ArrayProofs Deque.DequeProofs5 Hash.HashProofsE List_.ListProofs8 PQueue.PQueueProofs2 Rbuf.RbufProofs SList.SListProofs7 Tst.TstProofs2.
 Local Open Scope N_scope.
 
 (** CC_Array: a non-OK status returns the same array; the ledger is untouched unless the error is a refused allocation *)
@@ -151,4 +152,58 @@ Theorem C16_rbuf_dequeue_empty :
   forall r : rbuf, rb_inv r -> rb_size r = 0 -> rb_dequeue r = Ok (CC_ERR_OUT_OF_RANGE, None, r).
 Proof. exact CC.Rbuf.RbufProofs.rb_dequeue_empty_inert. Qed.
 Print Assumptions C16_rbuf_dequeue_empty.
+
+(** CC_List: every non-OK status leaves both lists unchanged *)
+Theorem C16_list_frame :
+  forall (cmp : N -> N -> comparison) (pred : N -> bool) (w : world) (hd : hnd) 
+           (o : lop) (out : lout) (w' : world),
+         ListProofs4.winv w -> cl_step cmp pred w hd o = Ok (out, w') -> frame_ok w w' out.
+Proof. exact CC.List_.ListProofs8.step_frame. Qed.
+Print Assumptions C16_list_frame.
+
+(** CC_SList *)
+Theorem C16_slist_frame :
+  forall (cmp : N -> N -> comparison) (pred : N -> bool) (w : sworld) (hd : shnd) 
+           (o : sop) (out : sout) (w' : sworld),
+         SListProofs3.swinv w -> sl_step cmp pred w hd o = Ok (out, w') -> sframe_ok w w' out.
+Proof. exact CC.SList.SListProofs7.sstep_frame. Qed.
+Print Assumptions C16_slist_frame.
+
+(** CC_List generated guards: get/replace/remove/add at index need [0,size); add_all_at / splice_at accept [0,size] *)
+Theorem C16_list_get_node_guard :
+  forall hdr index size : N,
+         hdr <> 0 -> g_list_get_node_at_range hdr index size = true <-> size <= index.
+Proof. exact CC.List_.ListProofs8.g_get_node_at_range_iff. Qed.
+Print Assumptions C16_list_get_node_guard.
+
+Theorem C16_list_add_all_at_guard :
+  forall index size : N, g_list_add_all_at_range index size = true <-> size < index.
+Proof. exact CC.List_.ListProofs8.g_add_all_at_range_iff. Qed.
+Print Assumptions C16_list_add_all_at_guard.
+
+Theorem C16_list_splice_at_guard :
+  forall index size : N, g_list_splice_at_range index size = true <-> size < index.
+Proof. exact CC.List_.ListProofs8.g_splice_at_range_iff. Qed.
+Print Assumptions C16_list_splice_at_guard.
+
+Theorem C16_list_sublist_guard :
+  forall b e size : N, g_list_sublist_range b e size = true <-> e < b \/ size <= e.
+Proof. exact CC.List_.ListProofs8.g_sublist_range_iff. Qed.
+Print Assumptions C16_list_sublist_guard.
+
+(** CC_SList generated guards *)
+Theorem C16_slist_get_node_guard :
+  forall index size : N, g_slist_get_node_at_range index size = true <-> size <= index.
+Proof. exact CC.SList.SListProofs7.g_slist_get_node_at_range_iff. Qed.
+Print Assumptions C16_slist_get_node_guard.
+
+Theorem C16_slist_splice_at_guard :
+  forall index size : N, g_slist_splice_at_range index size = true <-> size <= index.
+Proof. exact CC.SList.SListProofs7.g_slist_splice_at_range_iff. Qed.
+Print Assumptions C16_slist_splice_at_guard.
+
+Theorem C16_slist_sublist_guard :
+  forall b e size : N, g_slist_sublist_range b e size = true <-> e < b \/ size <= e.
+Proof. exact CC.SList.SListProofs7.g_slist_sublist_range_iff. Qed.
+Print Assumptions C16_slist_sublist_guard.
 
